@@ -182,7 +182,10 @@ func (h *Handler) Handle(cx *layer4.Connection, next layer4.Handler) error {
 	// (":0") instead, on which e.g. the remote_ip matcher fails.
 	if hdr, _ := conn.ProxyHeader(); hdr != nil {
 		if a, ok := hdr.SrcAddr().(*net.TCPAddr); ok && a != nil && a.IP == nil {
-			return next.Handle(cx.Wrap(socketAddrConn{Conn: conn, local: cx.LocalAddr(), remote: cx.RemoteAddr()}))
+			wrapped := socketAddrConn{Conn: conn, local: cx.LocalAddr(), remote: cx.RemoteAddr()}
+			// (also what the proxy handler builds its own PROXY header from)
+			cx.SetVar("l4.proxy_protocol.conn", wrapped)
+			return next.Handle(cx.Wrap(wrapped))
 		}
 	}
 
